@@ -476,6 +476,7 @@ func runC17(c *Check) {
 		}
 		c.MinInstances("C17-R8", 1)
 	}
+	ruleHandOffNotifies(c, p, nf, "C17-R9")
 	c.MinInstances("C17-R2", 4)
 	c.MinInstances("C17-R3", 3)
 	c.MinInstances("C17-R4", 2)
@@ -502,4 +503,106 @@ func timerParamName(fn *ssa.Function) string {
 		}
 	}
 	return "\x00"
+}
+
+// ruleHandOffNotifies (C17-R9): the wake-up starts where transactions are handed to the sequencing
+// layer. Once the layer accepted a batch, the function that handed it over reaches its return only
+// through the notifier — or through the test showing that there is nobody to notify (no manager,
+// nothing submitted). A failure of the bookkeeping that follows the hand-off must not skip it: in
+// lazy mode nothing else wakes the loop before the idle interval.
+func ruleHandOffNotifies(c *Check, p *Prog, notifier *ssa.Function, rule string) {
+	c.Doc(rule, "EO: in every function that hands transactions to the sequencing layer and notifies the block manager, every path from the layer's acceptance to a return passes the notifier (or a test on the manager / the batch showing there is nothing to notify).")
+	isSubmit := IsCall(seqM("SubmitBatchTxs"))
+	isNotify := func(n *Node) bool { cc := CallCommonOf(n); return cc != nil && cc.StaticCallee() == notifier }
+	n := 0
+	for _, fn := range p.Funcs {
+		pk := fnPkg(fn)
+		if pk == nil || pk.Pkg.Path() != rootPath+"/block" || fn.Blocks == nil || fn.Parent() != nil {
+			continue
+		}
+		calls := false
+		for _, b := range fn.Blocks {
+			for _, in := range b.Instrs {
+				if call, ok := in.(*ssa.Call); ok && commonName(call.Common()) == seqM("SubmitBatchTxs") {
+					calls = true
+				}
+			}
+		}
+		if !calls {
+			continue
+		}
+		g := BuildECFG(p, fn, ExpandOpts{MaxDepth: 1})
+		c.NoteGraph(g)
+		notes := g.Select(isNotify)
+		inst := fnShort(fn) + " ⟂ accepted-batch→notification"
+		if len(notes) == 0 {
+			c.Bad(rule, inst, fnName(fn), p.Pos(fn.Pos()), "transactions are handed to the sequencing layer without notifying the block manager: in lazy mode no block is produced for them before the idle interval", nil)
+			n++
+			continue
+		}
+		accepted := g.Select(ErrNilEdge(func(t *Term) bool { return t.IsCall(seqM("SubmitBatchTxs")) || (t.Op == "invoke" && strings.HasSuffix(t.Name, "SubmitBatchTxs")) }))
+		if len(accepted) == 0 {
+			c.Unk(rule, inst, fnName(fn), "", "anchor lost: no branch on the error of SubmitBatchTxs")
+			continue
+		}
+		// the tests that guard the notifier and depend on no call result: their other side means "nothing to notify"
+		var nothing []*Node
+		guards := map[ssa.Instruction]bool{}
+		after := map[ssa.Instruction]bool{}
+		for nd, r := range g.Reachable(accepted, nil) {
+			if r && nd.Kind == NInstr && nd.In != nil {
+				after[nd.In] = true
+			}
+		}
+		for _, f := range g.NecessaryEdges(nodeSet(notes)) {
+			if f.Node == nil || f.Node.In == nil {
+				continue
+			}
+			pure := true
+			f.Cond.Walk(func(t *Term) bool {
+				if in, ok := t.V.(ssa.Instruction); ok && after[in] {
+					if call, isCall := in.(*ssa.Call); isCall {
+						if _, builtin := call.Common().Value.(*ssa.Builtin); !builtin {
+							pure = false // depends on something done after the hand-off
+						}
+					}
+				}
+				return true
+			})
+			if pure {
+				guards[f.Node.In] = true
+			}
+		}
+		acc := map[*Node]bool{}
+		for _, a := range accepted {
+			acc[a] = true
+		}
+		for _, e := range g.Nodes {
+			if (e.Kind == NTrue || e.Kind == NFalse) && e.In != nil && guards[e.In] && !acc[e] {
+				isNecessary := false
+				for _, f := range g.NecessaryEdges(nodeSet(notes)) {
+					if f.Node == e {
+						isNecessary = true
+					}
+				}
+				reachesNotify := false
+				for nd, r := range g.Reachable([]*Node{e}, nil) {
+					if r && isNotify(nd) {
+						reachesNotify = true
+					}
+				}
+				if !isNecessary && !reachesNotify {
+					nothing = append(nothing, e)
+				}
+			}
+		}
+		n++
+		_ = isSubmit
+		c.Decide(rule, inst, fnName(fn), p.InstrPos(notes[0].In), "after the sequencing layer accepted the batch every return is reached through the notifier",
+			"the function can return after the sequencing layer accepted the batch without notifying the block manager: in lazy mode the transactions wait for the idle interval instead of getting a block within a block interval",
+			g, g.MustFollow(nodeSet(accepted), orPred(isNotify, nodeSet(nothing)), g.AnyExit()))
+	}
+	if n == 0 {
+		c.Unk(rule, "anchor-count", "", "", "anchor lost: no function of the block package hands transactions to the sequencing layer")
+	}
 }
